@@ -397,8 +397,10 @@ static std::vector<Known> load_known() {
   return v;
 }
 
+static std::string run_tag() { const char *e = getenv("VERIF_RUNTAG"); return e && *e ? std::string("-") + e : std::string(); }
+
 // ------------------------------------------------------------------ check driver
-struct Shared { volatile uint64_t cur_case[64]; volatile uint64_t done[64]; };
+struct Shared { volatile uint64_t cur_case[64]; volatile uint64_t done[64]; volatile uint64_t nviol; };
 
 static std::string self_exe() { char b[4096]; ssize_t n = readlink("/proc/self/exe", b, sizeof b - 1); b[n > 0 ? n : 0] = 0; return b; }
 
@@ -424,7 +426,10 @@ static int fresh_replay(const std::string &path, std::string *outtext) {
 
 static std::string replay_path(const std::string &prop, uint64_t master, uint64_t idx) {
   char b[256];
-  snprintf(b, sizeof b, "replays/%s-%s-seed%llu-case%llu.txt", prop.c_str(), sim::variant(), (unsigned long long)master, (unsigned long long)idx);
+  const char *rd = getenv("VERIF_REPLAY_DIR");
+  std::string dir = rd && *rd ? rd : "replays";
+  mkdir(dir.c_str(), 0755);
+  snprintf(b, sizeof b, "%s/%s-%s-seed%llu-case%llu.txt", dir.c_str(), prop.c_str(), sim::variant(), (unsigned long long)master, (unsigned long long)idx);
   return b;
 }
 
@@ -451,6 +456,7 @@ int run_check(const std::string &prop, int tier, uint64_t master, int jobs) {
   mkdir("replays", 0755); mkdir("evidence", 0755); mkdir("build", 0755); mkdir("build/tmp", 0755);
   Shared *sh = (Shared *)mmap(0, sizeof(Shared), PROT_READ | PROT_WRITE, MAP_SHARED | MAP_ANONYMOUS, -1, 0);
   memset((void *)sh, 0xff, sizeof *sh);
+  sh->nviol = 0;
   int pfd[2];
   if (pipe(pfd)) return 2;
   std::vector<pid_t> pids(jobs);
@@ -465,6 +471,7 @@ int run_check(const std::string &prop, int tier, uint64_t master, int jobs) {
       bool capped = false;
       for (uint64_t i = w; i < N; i += jobs) {
         if (now_s() - t0 > wall_cap) { capped = true; break; }
+        if (sh->nviol >= 4) { st.inc("stopped_early_after_violations"); break; }   // enough counterexamples: the tree is broken
         sh->cur_case[w] = i;
         uint64_t cs = case_seed(master, i);
         Case c = d->gen(cs, tier);
@@ -498,6 +505,7 @@ int run_check(const std::string &prop, int tier, uint64_t master, int jobs) {
           st.inc("shrink_evals", ev);
         }
         if (write(pfd[1], line.data(), line.size()) < 0) {}
+        __sync_fetch_and_add(&sh->nviol, 1);
         if (++viol >= 3) break;
       }
       sh->cur_case[w] = ~0ull;
@@ -574,7 +582,7 @@ int run_check(const std::string &prop, int tier, uint64_t master, int jobs) {
   all.inc("violations", reported); all.inc("known_hits", known_hits); all.inc("nondet", nondet);
   all.inc("cases_planned", N); all.inc("wall_ms", (uint64_t)(wall * 1000));
   all.inc(std::string("variant.") + sim::variant());
-  all.save(std::string("build/tmp/part-") + prop + "-" + sim::variant() + ".txt");
+  all.save(std::string("build/tmp/part-") + prop + "-" + sim::variant() + run_tag() + ".txt");
   printf("%s %s %s: cases=%llu/%llu runs=%llu distinct_nontrivial=%zu violations=%d known=%d nondet=%d wall=%.1fs\n", prop.c_str(), tier ? "thorough" : "quick", sim::variant(),
          (unsigned long long)all.n["cases"], (unsigned long long)N, (unsigned long long)all.n["runs"], all.d.count("nontrivial") ? all.d["nontrivial"].size() : 0, reported, known_hits, nondet, wall);
   if (nondet) return 2;
@@ -588,7 +596,7 @@ int write_evidence(const std::string &prop, int tier, uint64_t master, const std
   Stats all;
   std::string used;
   for (auto &v : variants) {
-    std::string p = "build/tmp/part-" + prop + "-" + v + ".txt";
+    std::string p = "build/tmp/part-" + prop + "-" + v + run_tag() + ".txt";
     if (all.load(p)) { used += (used.empty() ? "" : " ") + v; unlink(p.c_str()); }
   }
   double wall = all.n["wall_ms"] / 1000.0;
@@ -643,7 +651,10 @@ int write_evidence(const std::string &prop, int tier, uint64_t master, const std
   o << "  \"nondeterminism_reports\": " << all.n["nondet"] << ",\n";
   o << "  \"components\": {\"real\": \"all of /repo/src/*.c compiled from the working tree with -DKJN_LBZIP2_VERIF (main.c signals.c process.c compress.c expand.c parse.c decode.c encode.c divbwt.c crctab.c timespec.c) plus libc's pure functions\", \"stub\": \"threads, mutexes, condition variables, signals, file system, pipes, process exit, heap bookkeeping, stdio on stderr/stdout, clock (sim/sim.cc)\"}\n";
   o << " }\n}\n";
-  write_file("evidence/" + prop + ".json", o.str());
+  const char *ed = getenv("VERIF_EVIDENCE_DIR");
+  std::string dir = ed && *ed ? ed : "evidence";
+  mkdir(dir.c_str(), 0755);
+  write_file(dir + "/" + prop + ".json", o.str());
   return 0;
 }
 
